@@ -335,6 +335,7 @@ func witnessCases(prop string) []Case {
 	case "C01":
 		return []Case{
 			mk("symlink-rebuild", Cfg{Level: "fastest", RS: 20, WC: "file"}, []Op{{K: "mkdir", A: "/d", Perm: 0o755}, {K: "create", A: "/d/t", Len: 7, Dist: "text", DSeed: 1}, {K: "symlink", A: "/d/t", B: "/l"}}),
+			mk("non-utf8-name-embedded-header", Cfg{Enc: "age", Level: "fastest", RS: 20, WC: "file"}, []Op{{K: "mkdir", A: "/caf{E9}-latin1", Perm: 0o755}}), // {E9} stands for the byte 0xE9 (the case list travels as JSON)
 		}
 	case "C02":
 		return []Case{
